@@ -87,6 +87,10 @@ def period_get_subperiods (p : Period) (u : DUnit) : Except String (List Period)
   if ((u == DUnit.weekday)) then (do let b ← (Except.ok p.firstWeekday); let n ← p.sizeInWeekdays; offsetsFrom b DUnit.weekday n) else
   (Except.error "value")
 
+/-- the test of the `if … raise` of `period` (openfisca_core/periods/helpers.py) that mentions `unit_weight(period.unit)` -/
+def period_text_finer_refused (u base : DUnit) : Bool :=
+  (((decide ((unitWeight base) > (unitWeight u)))) || (((u == DUnit.week)) && ((base == DUnit.month))))
+
 /-- 2 guards of `Holder._set` (openfisca_core/holders/holder.py), first match decides; `true` = raises -/
 def holderSet_raises (du pu : DUnit) (sz : Int) : Bool :=
   if (!(du == DUnit.eternity)) && (((some pu).isNone)) then true else
@@ -99,5 +103,5 @@ def holderSetInput_refuses (du pu : DUnit) (neutralized : Bool) : Bool :=
   if neutralized then false else
   false
 
-def translated : List (String × Bool) := [("checkPeriodConsistency_raises", true), ("calculateAdd_raises", true), ("calculateDivide_raises", true), ("calculateDivide_period", true), ("calculateDivide_denominator", true), ("period_size_in_years", true), ("period_size_in_months", true), ("period_size_in_days", true), ("period_size_in_weeks", true), ("period_size_in_weekdays", true), ("period_get_subperiods", true), ("holderSet_raises", true), ("holderSetInput_refuses", true)]
+def translated : List (String × Bool) := [("checkPeriodConsistency_raises", true), ("calculateAdd_raises", true), ("calculateDivide_raises", true), ("calculateDivide_period", true), ("calculateDivide_denominator", true), ("period_size_in_years", true), ("period_size_in_months", true), ("period_size_in_days", true), ("period_size_in_weeks", true), ("period_size_in_weekdays", true), ("period_get_subperiods", true), ("period_text_finer_refused", true), ("holderSet_raises", true), ("holderSetInput_refuses", true)]
 end OFCore.Generated.Guards
